@@ -146,5 +146,4 @@ FINDINGS = {
 }
 FINDINGS.update(fz.by_neutralising_all(run_case, [
     ('F01-stray-eoo', fz.explicit_over_nonindef_prim, fz.neutralise_explicit_prims),
-    ('F02-tagged-any-indef', fz.tagged_any_present, fz.neutralise_tagged_any),
 ], subs=_CER_SUBS, others=_MODEL_BASED))
